@@ -7,6 +7,7 @@ require (
 	github.com/TheCacophonyProject/go-cptv v0.0.0-20211109233846-8c32a5d161f7
 	github.com/TheCacophonyProject/thermal-recorder v0.0.0
 	github.com/TheCacophonyProject/window v0.0.0-20200312071457-7fc8799fdce7
+	gopkg.in/yaml.v1 v1.0.0-20140924161607-9f9df34309c0
 )
 
 replace github.com/TheCacophonyProject/thermal-recorder => /repo
